@@ -24,6 +24,9 @@ type vfC01Case struct {
 	Cfg   vfPairCfg   `json:"cfg"`
 	Paths []vfTopPath `json:"paths"`
 	Pre   int         `json:"pre,omitempty"` // with -y: what already sits at the destination under the same names (0 nothing, 1 longer copies, 2 prefixes, 3 other content, 4 identical)
+	// AlsoSub: in directory mode, a sub-directory of the first path is named on the command line as well ("tsz -d proj proj/sub"):
+	// it arrives twice, inside the first tree and as a top-level entry of its own
+	AlsoSub bool `json:"also_sub,omitempty"`
 }
 
 func (p vfTopPath) base() string { return p.Tree.Files[0].Rel[0] }
@@ -74,6 +77,7 @@ type vfC01Res struct {
 	files   int
 	intact  int
 	msgs    int
+	alsoSub bool
 }
 
 func vfC01Run(cs vfC01Case, res *vfC01Res) string {
@@ -100,6 +104,26 @@ func vfC01Run(cs vfC01Case, res *vfC01Res) string {
 			}
 		}
 	}
+	subParent, subName := "", ""
+	if cs.AlsoSub && cs.Cfg.Directory && len(cs.Paths) > 0 {
+		top := cs.Paths[0].base()
+		for _, f := range cs.Paths[0].Tree.Files {
+			if f.IsDir && len(f.Rel) == 2 {
+				clash := false
+				for _, n := range names {
+					if n == f.Rel[1] {
+						clash = true
+					}
+				}
+				if !clash {
+					subParent, subName = filepath.Join(base, "src", "p0", top), f.Rel[1]
+					paths = append(paths, filepath.Join(subParent, subName))
+					names = append(names, subName)
+				}
+				break
+			}
+		}
+	}
 	if cs.Pre > 0 && cs.Cfg.Overwrite {
 		vfC01PreExisting(cs, base, dest)
 	}
@@ -122,6 +146,12 @@ func vfC01Run(cs vfC01Case, res *vfC01Res) string {
 			return m + " (" + r.describe() + ")"
 		}
 		res.intact++
+	}
+	if subName != "" {
+		if m := vfCompareSubtree(subParent, subName, dest, want[len(want)-1]); m != "" {
+			return "the sub-directory that was also named by itself: " + m + " (" + r.describe() + ")"
+		}
+		res.alsoSub = true
 	}
 	// nothing else was created
 	ents, _ := os.ReadDir(dest)
@@ -258,6 +288,7 @@ func vfGenC01(rt *rapid.T) vfC01Case {
 	}
 	cs.Cfg = vfGenPairCfg(rt, total)
 	cs.Cfg.Directory = dirMode
+	cs.AlsoSub = dirMode && rapid.IntRange(0, 3).Draw(rt, "alsosub") == 0
 	if cs.Cfg.Overwrite && rapid.IntRange(0, 2).Draw(rt, "preexisting") == 0 {
 		cs.Pre = rapid.IntRange(1, 4).Draw(rt, "prekind")
 	}
@@ -354,6 +385,9 @@ func TestVF_C01(t *testing.T) {
 		}
 		def := vfPairCfg{Timeout: 20, Protocol: 4}
 		nondefault := cs.Cfg != def
+		if res.alsoSub {
+			labels = append(labels, "sub_directory_also_named_by_itself")
+		}
 		c.eval(cs, res.intact > 0 && res.bytes > 0 && nondefault, labels...)
 		return msg
 	})
